@@ -600,6 +600,7 @@ func minimise(work, bin string, r *b.Repo, inv gcInv, key string, first *finding
 					continue
 				}
 				dropUnusedFiles(c)
+				sanitise(c)
 				if f := try(c, inv); f != nil {
 					r, best, changed = c, f, true
 				}
